@@ -1,0 +1,44 @@
+//go:build verif
+
+/*
+Add-only hook for the /verif check of property C08 (hash trees equal the reference Merkle
+construction). Compiled only with `-tags verif`; without the tag this file does not exist for the
+compiler. It exposes the digest-log addressing (unexported pure functions) and the valid part of
+the digest log as the tree itself reads it.
+*/
+
+package ahtree
+
+import "crypto/sha256"
+
+// VerifNodesUpto is nodesUpto: number of digests stored for the first n leaves.
+func VerifNodesUpto(n uint64) uint64 { return nodesUpto(n) }
+
+// VerifNodesUntil is nodesUntil: index of the first digest of the group of leaf n.
+func VerifNodesUntil(n uint64) uint64 { return nodesUntil(n) }
+
+// VerifLevelsAt is levelsAt: index of the root inside the group of leaf n.
+func VerifLevelsAt(n uint64) int { return levelsAt(n) }
+
+// VerifDigests returns the dLogSize/32 valid digests in log order, each read with nodeAt (i.e.
+// through the digest cache, falling back to the digest log), exactly as Append, rootAt and the
+// proof generators read them.
+func (t *AHtree) VerifDigests() ([][sha256.Size]byte, error) {
+	t.mutex.Lock()
+	defer t.mutex.Unlock()
+
+	if t.closed {
+		return nil, ErrAlreadyClosed
+	}
+
+	n := uint64(t.dLogSize / sha256.Size)
+	ds := make([][sha256.Size]byte, n)
+	for i := uint64(0); i < n; i++ {
+		h, err := t.nodeAt(i)
+		if err != nil {
+			return nil, err
+		}
+		ds[i] = h
+	}
+	return ds, nil
+}
